@@ -14,21 +14,21 @@ import (
 
 type solverDef struct {
 	name string
-	args func(file string, timeoutS int) []string
+	args func(file string, timeoutS int, seed int) []string
 	prep func(q string) string
 }
 
 var solverSeed = 0
 
 var solvers = []solverDef{
-	{"z3-4.8.12", func(f string, t int) []string {
-		return []string{"/usr/bin/z3", fmt.Sprintf("-T:%d", t), fmt.Sprintf("smt.random_seed=%d", solverSeed), fmt.Sprintf("sat.random_seed=%d", solverSeed), f}
+	{"z3-4.8.12", func(f string, t int, seed int) []string {
+		return []string{"/usr/bin/z3", fmt.Sprintf("-T:%d", t), fmt.Sprintf("smt.random_seed=%d", seed), fmt.Sprintf("sat.random_seed=%d", seed), f}
 	}, nil},
-	{"z3-5.1.0", func(f string, t int) []string {
-		return []string{"z3-new", fmt.Sprintf("-T:%d", t), fmt.Sprintf("smt.random_seed=%d", solverSeed), fmt.Sprintf("sat.random_seed=%d", solverSeed), f}
+	{"z3-5.1.0", func(f string, t int, seed int) []string {
+		return []string{"z3-new", fmt.Sprintf("-T:%d", t), fmt.Sprintf("smt.random_seed=%d", seed), fmt.Sprintf("sat.random_seed=%d", seed), f}
 	}, nil},
-	{"cvc5-1.0", func(f string, t int) []string {
-		return []string{"cvc5", fmt.Sprintf("--tlimit=%d", t*1000), fmt.Sprintf("--seed=%d", solverSeed), "--lang=smt2", f}
+	{"cvc5-1.0", func(f string, t int, seed int) []string {
+		return []string{"cvc5", fmt.Sprintf("--tlimit=%d", t*1000), fmt.Sprintf("--seed=%d", seed), "--lang=smt2", f}
 	}, nil},
 }
 
@@ -41,7 +41,14 @@ type solveResult struct {
 
 // runSolvers races the portfolio on one query.
 func runSolvers(dir string, id int, query string, timeoutS int, wantModel bool, only string) solveResult {
-	file := filepath.Join(dir, fmt.Sprintf("q%06d.smt2", id))
+	return runSolversSeed(dir, id, query, timeoutS, wantModel, only, solverSeed)
+}
+
+func runSolversSeed(dir string, id int, query string, timeoutS int, wantModel bool, only string, seed int) solveResult {
+	file := filepath.Join(dir, fmt.Sprintf("q%06d_s%d.smt2", id, seed))
+	if seed == solverSeed {
+		file = filepath.Join(dir, fmt.Sprintf("q%06d.smt2", id))
+	}
 	q := query
 	if wantModel {
 		q += "(get-model)\n"
@@ -64,7 +71,7 @@ func runSolvers(dir string, id int, query string, timeoutS int, wantModel bool, 
 		n++
 		s := s
 		go func() {
-			a := s.args(file, timeoutS)
+			a := s.args(file, timeoutS, seed)
 			cmd := exec.CommandContext(ctx, a[0], a[1:]...)
 			var out bytes.Buffer
 			cmd.Stdout = &out
@@ -119,8 +126,17 @@ func discharge(obls []*Obligation, dir string, timeoutS int, workers int) {
 			defer func() { <-sem }()
 			r := runSolvers(dir, i, ob.Query, timeoutS, false, "")
 			if r.verdict == "unknown" {
-				// escalate once with a longer limit
-				r = runSolvers(dir, i, ob.Query, timeoutS*3, false, "")
+				// escalate: other random seeds (quantifier instantiation is
+				// order-sensitive), then a longer limit
+				for _, sd := range []int{solverSeed + 7, solverSeed + 13, solverSeed + 101} {
+					r = runSolversSeed(dir, i, ob.Query, timeoutS, false, "", sd)
+					if r.verdict != "unknown" {
+						break
+					}
+				}
+				if r.verdict == "unknown" {
+					r = runSolvers(dir, i, ob.Query, timeoutS*3, false, "")
+				}
 			}
 			ob.Solver = r.solver
 			ob.Time = r.dur
